@@ -336,6 +336,7 @@ func (l *Linter) LintFiles(filepaths []string, project *Project) ([]*Error, erro
 		path string
 		errs []*Error
 		src  []byte
+		err  error
 	}
 
 	ws := make([]workspace, 0, len(filepaths))
@@ -366,7 +367,8 @@ func (l *Linter) LintFiles(filepaths []string, project *Project) ([]*Error, erro
 			src, err := os.ReadFile(w.path)
 			sema.Release(1)
 			if err != nil {
-				return fmt.Errorf("could not read %q: %w", w.path, err)
+				w.err = fmt.Errorf("could not read %q: %w", w.path, err)
+				return w.err
 			}
 
 			if cwd != "" {
@@ -376,7 +378,8 @@ func (l *Linter) LintFiles(filepaths []string, project *Project) ([]*Error, erro
 			}
 			errs, err := l.check(w.path, src, proj, proc, ac, rwc)
 			if err != nil {
-				return fmt.Errorf("fatal error while checking %s: %w", w.path, err)
+				w.err = fmt.Errorf("fatal error while checking %s: %w", w.path, err)
+				return w.err
 			}
 			w.src = src
 			w.errs = errs
@@ -397,6 +400,13 @@ func (l *Linter) LintFiles(filepaths []string, project *Project) ([]*Error, erro
 	proc.wait()
 
 	if err != nil {
+		// eg.Wait() returns the error which happened first. When several files failed, return the
+		// error of the first of them in the order of the arguments so that the result is stable
+		for i := range ws {
+			if ws[i].err != nil {
+				return nil, ws[i].err
+			}
+		}
 		return nil, err
 	}
 
